@@ -122,7 +122,8 @@ impl Optimizer for LM {
         let mut jtr = jacobian.t_dot(&res).to_matrix();
 
         let mut step = 0;
-        let mut mu = self.tau * jtj.diag().max();
+        // the damping below is mu * diag(J^T J), i.e. mu is already relative to the diagonal
+        let mut mu = self.tau;
         let mut nu = 2.;
 
         let mut stop = jtr.inf_norm() <= self.eps1;
